@@ -103,15 +103,20 @@ fn build(case: &PageCase) -> (u64, [u8; 512], Vec<u64>) {
 }
 
 pub fn check_case(case: &PageCase, _dir: &Path) -> CaseResult {
-	let mut out = CaseOut::default();
 	let bits = case.bits;
 	if !(16..=49).contains(&bits) || case.pos > 64 {
-		return Ok(out)
+		return Ok(CaseOut::default())
 	}
 	let (key_prefix, page, entries) = build(case);
+	check_raw(bits, case.pos as usize, key_prefix, &page, &entries)
+}
+
+/// The oracle on an arbitrary page (also used by the libFuzzer target).
+pub fn check_raw(bits: u8, p: usize, key_prefix: u64, page: &[u8; 512], entries: &[u64]) -> CaseResult {
+	let mut out = CaseOut::default();
+	let page = *page;
 	let ab = address_bits(bits);
 	let shift = ab.max(32);
-	let p = case.pos as usize;
 	let exact_pk = (key_prefix << bits) >> ab;
 	let fast_pk = ((key_prefix << bits) >> shift) as u32;
 	let f: Vec<usize> = (p..64).filter(|i| entries[*i] != 0 && ((entries[*i] >> shift) as u32) == fast_pk).collect();
